@@ -501,7 +501,7 @@ pub fn c07(tier: Tier) -> i32 {
     // itself, unless it nests a tree wildcard). The routes rebuild the token tree (fold_map /
     // compose), which `Glob::new` never does.
     {
-        let sopts = SpaceOpts { shape: tier.pick(3, 4), subst_single: 2, subst_pairs: 0, reduced: 0, corpus: true, letter_canonical: true, position: tier.pick(1, 2), position_full: tier.pick(0, 1), adjacent: tier == Tier::Thorough };
+        let sopts = SpaceOpts { shape: tier.pick(3, 4), subst_single: 2, subst_pairs: 0, reduced: 0, corpus: true, letter_canonical: true, position: tier.pick(1, 2), position_full: tier.pick(0, 1), adjacent: false };
         for_each_glob(&rep, &sopts, &|e, g, c| {
             if e.pass == "partition" {
                 return;
